@@ -462,7 +462,8 @@ def sym_psd(oq):
     if bool(((S - S.T).abs() > 1e-12 * (dd + torch.maximum(S.abs(), S.T.abs())) + 1e-300).any()):
         out.append(("cov:asymmetric", float((S - S.T).abs().max())))
     if bool((torch.diag(S) < 0).any()):
-        out.append(("cov:negative_variance", float(torch.diag(S).min())))
+        neg = [int(k) for k in torch.nonzero(torch.diag(S) < 0).flatten().tolist()]
+        out.append(("cov:negative_variance" + ("_tau_only" if neg == [4] else ""), float(torch.diag(S).min())))
     # |cov_ij| <= sigma_i sigma_j (all 2x2 minors) and smallest eigenvalue of the normalised matrix
     if bool((S.abs() > dd * (1 + 1e-9) + 1e-300).any()):
         out.append(("cov:not_psd_minor", float((S.abs() - dd).max())))
@@ -501,8 +502,8 @@ def classify(spec, diffs, psd):
         else:
             new.append((what, d))
     for what, d in psd:
-        if spec["cls"] == "Cavity" and what.startswith("cov:not_psd"):
-            known.append(F2_WHAT)
+        if spec["cls"] == "Cavity" and (what.startswith("cov:not_psd") or what == "cov:negative_variance_tau_only"):
+            known.append(F2_WHAT)      # the overwritten cov[4,4] (F2) can even be negative: the same defect, only the tau variance
         else:
             new.append((what, d))
     return known, new
